@@ -19,6 +19,13 @@ Theorem could_write_int_iff_representable : forall argty w v, std_cty argty -> i
   int_could_write argty w v = Some ((- 2 ^ (w - 1) <=? v) && (v <? 2 ^ (w - 1))).
 Proof. exact int_could_write_spec. Qed.
 
+(* with a [requires] attribute (vok = the generated Parameters::ValueIsOk, evaluated on the value converted to the
+   value type, and only when the range test passed): representable && requires *)
+Theorem could_write_requires : forall vok argty w v, std_cty argty -> in_cty argty v -> 1 <= w <= 64 ->
+  uint_could_write_req vok argty w v = Some ((0 <=? v) && (v <? 2 ^ w) && vok v) /\
+  int_could_write_req vok argty w v = Some ((- 2 ^ (w - 1) <=? v) && (v <? 2 ^ (w - 1)) && vok v).
+Proof. exact could_write_requires_l. Qed.
+
 (* unsigned enum; ct = the container's unsigned type (BitViewType::ValueType), ut = the enum's underlying type *)
 Theorem could_write_enum_unsigned_iff_representable : forall ct ut w v,
   std_cty ct -> csigned ct = false -> std_cty ut -> csigned ut = false ->
